@@ -6,9 +6,15 @@ C02 driver.  Header `@ C02 <kind> <ktype> <cmp> <dump|nodump>`:
   kind  zero = `var s SkipList[K,int]`, new = `NewSkipList`, cmp = `NewSkipListWithCmp`
   ktype int | str (keys as hex bytes)
   cmp   nat | rev | mod3 (int: key mod 3, then value) | len (str: length, then bytes)
+        half (int: compare k>>1 — identifies 2m and 2m+1) | lenonly (str: compare lengths only):
+        weak orders, `cmp a b = 0` for distinct keys; the stored key is kept on replace
 Operations (values are ints, `r` is the word the random source returns):
   set k v r | setnx k v r | setx k v r | get k | getnode k | setnode k v | rm k | clear | init
   len | head | keys | values | range n | all n | rfrom s n | rrange s e n
+  walk (Head(), then Next() to the end) | walkfrom k (GetNode(k), then Next() to the end)
+  hold k (keep the node GetNode(k) returns) | held (Key/Value/Next of the kept node) |
+  heldset v (SetValue on the kept node) | heldwalk (Next() from the kept node to the end);
+  the kept node is dropped when it is removed from the list (rm hit on an equivalent key, clear, init)
 Every answer is `<result> | L=<level> n=<len> <towers>`.
 -/
 namespace Golib.C02
@@ -38,6 +44,12 @@ def cmpMod3 (a b : Int) : Int :=
 def cmpLen (a b : List Nat) : Int :=
   if a.length ≠ b.length then cmpInt a.length b.length else cmpBytes a b
 
+/-- A weak order on ints: compares `k >> 1` (Go's arithmetic shift = floor division by 2). -/
+def cmpHalf (a b : Int) : Int := cmpInt (a / 2) (b / 2)
+
+/-- A weak order on strings: compares the lengths only. -/
+def cmpLenOnly (a b : List Nat) : Int := cmpInt a.length b.length
+
 variable {K : Type} [DecidableEq K]
 
 def showTowers (io : KeyIO K) (s : SL K Int) : String :=
@@ -52,8 +64,8 @@ def showKVs (io : KeyIO K) (xs : List (K × Int)) : String :=
 def showKeys (io : KeyIO K) (xs : List K) : String :=
   "[" ++ " ".intercalate (xs.map io.show_) ++ "]"
 
-/-- One operation: `none` = bad-op, `some none` = panic. -/
-def step (io : KeyIO K) (cfg : Cfg K Int) (s : SL K Int) (t : List String) :
+/-- One operation on the list: `none` = bad-op, `some none` = panic. -/
+def stepList (io : KeyIO K) (cfg : Cfg K Int) (s : SL K Int) (t : List String) :
     Option (Option (SL K Int × String)) :=
   let setOp (mode : Nat) (k v r : String) (sh : Bool → String) : Option (Option (SL K Int × String)) :=
     match io.parse k, v.toInt?, r.toNat? with
@@ -105,21 +117,61 @@ def step (io : KeyIO K) (cfg : Cfg K Int) (s : SL K Int) (t : List String) :
     | _, _, _ => none
   | _ => none
 
+/-- `key val next=…` of a node. -/
+def showNode (io : KeyIO K) (s : SL K Int) (n : K) : Option String :=
+  match getVal s.vals n, s.nodeNext n with
+  | some v, some nx => some s!"{io.show_ n} {v} next={match nx with | none => "nil" | some x => io.show_ x}"
+  | _, _ => none
+
+/-- One operation; the state is the list and the node handle the harness keeps (`hold`). -/
+def step (io : KeyIO K) (cfg : Cfg K Int) (st : SL K Int × Option K) (t : List String) :
+    Option (Option ((SL K Int × Option K) × String)) :=
+  let (s, held) := st
+  match t with
+  | ["walk"] => some (s.walk.map fun xs => ((s, held), showKVs io xs))
+  | ["walkfrom", k] => (io.parse k).map fun k => (s.walkFrom cfg k).map fun xs => ((s, held), showKVs io xs)
+  | ["hold", k] => (io.parse k).map fun k =>
+      match s.getNode cfg k with
+      | none => none
+      | some none => some ((s, none), "nil")
+      | some (some n) => (showNode io s n).map fun o => ((s, some n), o)
+  | ["held"] => some (match held with
+      | none => some ((s, held), "none")
+      | some n => (showNode io s n).map fun o => ((s, held), o))
+  | ["heldset", v] => v.toInt?.map fun v =>
+      match held with
+      | none => some ((s, held), "none")
+      | some n => some ((s.setNodeValue n v, held), "ok")
+  | ["heldwalk"] => some (match held with
+      | none => some ((s, held), "none")
+      | some n => (s.walkNodes (s.lv.headD []).length (some n)).map fun xs => ((s, held), showKVs io xs))
+  | _ =>
+    -- the kept node leaves the list: Remove of an equivalent key that succeeds, Clear, Init
+    let drops : Bool := match t, held with
+      | ["rm", k], some n => (match io.parse k with
+          | some k => cfg.cmp n k == 0
+          | none => false)
+      | ["clear"], _ => true
+      | ["init"], _ => true
+      | _, _ => false
+    (stepList io cfg s t).map fun r => r.map fun (s', o) => ((s', if drops then none else held), o)
+
 def withDump (io : KeyIO K) (dump : Bool) (out : String) (s : SL K Int) : String :=
   if dump then out ++ " | " ++ showTowers io s else out
 
-def runOps (io : KeyIO K) (cfg : Cfg K Int) (dump : Bool) : Option (SL K Int) → List String → List String
+def runOps (io : KeyIO K) (cfg : Cfg K Int) (dump : Bool) :
+    Option (SL K Int × Option K) → List String → List String
   | _, [] => []
   | none, _ :: ls => "dead" :: runOps io cfg dump none ls
   | some s, l :: ls =>
     match step io cfg s (toks l) with
     | none => "bad-op" :: runOps io cfg dump (some s) ls
     | some none => "panic" :: runOps io cfg dump none ls
-    | some (some (s', out)) => withDump io dump out s' :: runOps io cfg dump (some s') ls
+    | some (some (s', out)) => withDump io dump out s'.1 :: runOps io cfg dump (some s') ls
 
 def runWith (io : KeyIO K) (cfg : Cfg K Int) (kind : String) (dump : Bool) (ops : List String) : List String :=
   let s0 : SL K Int := if kind = "zero" then SL.zero else SL.init
-  withDump io dump "ok" s0 :: runOps io cfg dump (some s0) ops
+  withDump io dump "ok" s0 :: runOps io cfg dump (some (s0, none)) ops
 
 def bad (ops : List String) : List String := "bad-op" :: ops.map fun _ => "bad-op"
 
@@ -138,11 +190,13 @@ def runCase (hdr : List String) (ops : List String) : List String :=
         if c = "nat" then runWith intIO ⟨cmpInt, false, 0, 0, true⟩ kind dump ops
         else if c = "rev" then runWith intIO ⟨fun a b => cmpInt b a, false, 0, 0, true⟩ kind dump ops
         else if c = "mod3" then runWith intIO ⟨cmpMod3, false, 0, 0, true⟩ kind dump ops
+        else if c = "half" then runWith intIO ⟨cmpHalf, false, 0, 0, true⟩ kind dump ops
         else bad ops
       else if kt = "str" then
         if c = "nat" then runWith strIO ⟨cmpBytes, false, [], 0, true⟩ kind dump ops
         else if c = "rev" then runWith strIO ⟨fun a b => cmpBytes b a, false, [], 0, true⟩ kind dump ops
         else if c = "len" then runWith strIO ⟨cmpLen, false, [], 0, true⟩ kind dump ops
+        else if c = "lenonly" then runWith strIO ⟨cmpLenOnly, false, [], 0, true⟩ kind dump ops
         else bad ops
       else bad ops
     else bad ops
